@@ -861,6 +861,7 @@ fn run_subject<S: Subject>(ctx: &Ctx, rep: &mut Report, base: u64, count: u64, m
         if !ctx.wants(n) {
             continue;
         }
+        crate::apply::set_route_seed(ctx.seed ^ n.wrapping_mul(0x9E3779B97F4A7C15));
         rep.eval();
         let mut rng = ctx.rng(S::NAME, k);
         let len = 1 + rng.below(maxlen);
